@@ -71,6 +71,34 @@ Fixpoint scan (fuel : nat) (j : journal) (pos id : N) (need : bool) (last_time :
     end
   end.
 
+(* The scan pass as the code was: end_transaction is a tid_t in which 0 means "not determined yet" - but 0 is a
+   transaction id too (the ids wrap around 2^32).  With ASYNC_COMMIT the scan goes on after a failed commit checksum, and
+   at its end "not determined" is replaced by the id reached. *)
+Fixpoint scan_old (fuel : nat) (j : journal) (pos id : N) (need : bool) (last_time : N) (endt : N) : sres :=
+  match fuel with
+  | O => SFuel
+  | S f =>
+    let done := SEnd (if endt =? 0 then id else endt) in
+    let pos1 := adv j pos 1 in
+    match j_blk j pos with
+    | JDesc seq ok tags =>
+      if negb (seq =? id) then done else
+      scan_old f j (adv j pos1 (N.of_nat (length tags))) id (need || negb ok) last_time endt
+    | JCommit seq ok time =>
+      if negb (seq =? id) then done else
+      if need then (if last_time <=? time then SFail else done)
+      else if negb ok then
+        if time <? last_time then done
+        else if negb (j_async j) then SEnd id
+        else scan_old f j pos1 (tid_next id) need time id
+      else scan_old f j pos1 (tid_next id) need time endt
+    | JRevoke seq ok blks =>
+      if negb (seq =? id) then done else
+      scan_old f j pos1 id (need || negb ok) last_time endt
+    | JData _ | JOther => done
+    end
+  end.
+
 (* ---- the revoke table ---- *)
 Definition rtable := list (N * N).      (* block -> sequence *)
 
